@@ -892,6 +892,49 @@ protocols_sign(signature_t *sig,
     return 1;
 }
 
+// Range validation of the public key and signature values handed to protocols_verif.
+// Every field below indexes a precomputed table, sizes a stack array or bounds a loop in the
+// verification, so values an honest signer cannot produce are rejected before any use.
+static int
+public_key_in_range(const public_key_t *pk)
+{
+    if (!fp2_is_one(&pk->curve.C) || pk->curve.is_A24_computed_and_normalized)
+        return 0;
+    if (pk->hint_pk[0] < 0 || pk->hint_pk[1] < 0)
+        return 0;
+    return 1;
+}
+
+static int
+signature_in_range(const signature_t *sig)
+{
+    if (!fp2_is_one(&sig->E_aux.C) || sig->E_aux.is_A24_computed_and_normalized)
+        return 0;
+    if (sig->backtracking < 0 || sig->backtracking >= SQIsign2D_backtracking_bound)
+        return 0;
+    if (sig->two_resp_length < 0 ||
+        sig->two_resp_length >= (int)(sizeof(strategies) / sizeof(strategies[0])) -
+                                    (TORSION_PLUS_EVEN_POWER - SQIsign2D_response_length))
+        return 0;
+    if (sig->hint_aux[0] < 0 || sig->hint_aux[1] < 0)
+        return 0;
+    if (sig->hint_chall[0] < 0 || sig->hint_chall[1] < 0)
+        return 0;
+    if (sig->chall_b < 0 || sig->chall_b > 1)
+        return 0;
+    if (ibz_cmp(&sig->chall_coeff, &ibz_const_zero) < 0 ||
+        ibz_bitsize(&sig->chall_coeff) > RADIX * NWORDS_ORDER)
+        return 0;
+    for (int i = 0; i < 2; i++) {
+        for (int j = 0; j < 2; j++) {
+            if (ibz_cmp(&sig->mat_Bchall_can_to_B_chall[i][j], &ibz_const_zero) < 0 ||
+                ibz_bitsize(&sig->mat_Bchall_can_to_B_chall[i][j]) > SQIsign2D_response_length + 2)
+                return 0;
+        }
+    }
+    return 1;
+}
+
 int
 protocols_verif(signature_t *sig, const public_key_t *pk, const unsigned char *m, size_t l)
 {
@@ -900,6 +943,12 @@ protocols_verif(signature_t *sig, const public_key_t *pk, const unsigned char *m
 
     ibz_t tmp;
     ibz_vec_2_t vec_chall, check_vec_chall;
+
+    // rejecting public keys and signatures whose values are outside the ranges the computations
+    // below assume (table indices, array sizes, loop bounds)
+    if (!public_key_in_range(pk) || !signature_in_range(sig)) {
+        return 0;
+    }
 
     ibz_init(&tmp);
     ibz_vec_2_init(&vec_chall);
